@@ -126,4 +126,25 @@ SPECS = {
             },
         ],
     },
+    "Archive": {
+        "source": "artap/archive.py",
+        "serves": ["C04", "C09", "C18"],
+        "imports": ["ArtapModel.Model.Archive"],
+        "functions": [
+            {   # generic in the element type, the comparator (may raise) and the costs equality, as the model
+                "py": "Archive.add", "lean": "Archive_add",
+                "header": "{α : Type}",
+                "py_params": ["self", "individual"],
+                "params": [("cmp", "α → α → Option Nat"), ("same", "α → α → Bool"),
+                           ("contents", L("α")), ("individual", "α")],
+                "vars": {"individual": "α"},
+                "state": {"self._contents": ("contents", L("α"))},
+                "ret": "Bool", "raises": True,
+                "result": ("({contents}, {ret})", ("Prod", (L("α"), "Bool"))),
+                "types": {"α": {".costs_signed": ("{0}", "α#cs")}},
+                "eq": {"α#cs": "(same {0} {1})"},
+                "calls": {"self._dominance.compare": {"fn": "cmp", "args": ["α#cs", "α#cs"], "ret": "Nat", "raises": True}},
+            },
+        ],
+    },
 }
